@@ -228,7 +228,7 @@ func init() {
 	register(&PropSpec{ID: "C09", Jobs: c09jobs,
 		Covers: []string{"C09.command-saw-environment", "C09.two-levels-define-the-name", "C09.dir-checked"},
 		Bounds: map[string]interface{}{
-			"quick":    "one name defined at every subset of the six levels (64 subsets as stages, 32 as direct runs), each level's value an independent symbolic member of {a, m, z} (so higher levels sort below, equal to and above lower ones) and, as stages, each level's value 2 ARBITRARY printable bytes (every order relation, '=' inside values included); one unrelated parent variable; directories: every subset of stage/task/context dir, direct and as a stage, given literally or as a template over a task variable, for the before hook, the command and the after hook",
+			"quick":    "one name defined at every subset of the six levels (64 subsets as stages, 32 as direct runs), each level's value an independent symbolic member of {a, m, z, the empty string} (so higher levels sort below, equal to and above lower ones, and a level may define the name with an empty value) and, as stages, each level's value 2 ARBITRARY printable bytes (every order relation, '=' inside values included); one unrelated parent variable; directories: every subset of stage/task/context dir, direct and as a stage, given literally or as a template over a task variable, for the before hook, the command and the after hook",
 			"thorough": "additionally values of 1 and of 3 arbitrary printable bytes",
 		},
 		Outside:     []string{"how mvdan.cc/sh exports the Environ to child processes", "directory templates other than a leading reference to one task variable (utils.RenderString is a model that substitutes a leading {{.D}}; the real text/template engine runs in the native replay only)", "values longer than 3 bytes or with non-printable bytes", "the env_file parser (utils.ReadEnvFile stubbed to return the map; its crashes are C15)"},
